@@ -4,6 +4,7 @@ import (
 	"fmt"
 	"go/token"
 	"go/types"
+	"os"
 	"sort"
 
 	"golang.org/x/tools/go/ssa"
@@ -22,6 +23,11 @@ type zterm struct {
 }
 
 var zZero = zterm{}
+
+type zEntryFact struct {
+	a, b zterm
+	c    int64
+}
 
 func (t zterm) String() string {
 	switch {
@@ -177,6 +183,43 @@ func (s *zstate) forget(t zterm) {
 		}
 	}
 	delete(s.terms, t)
+	// a guarded fact about the forgotten term describes its previous value
+	for g, l := range s.guarded {
+		keep := l[:0:0]
+		for _, c := range l {
+			if c.a != t && c.b != t {
+				keep = append(keep, c)
+			}
+		}
+		if len(keep) != len(l) {
+			if len(keep) == 0 {
+				delete(s.guarded, g)
+			} else {
+				s.guarded[g] = keep
+			}
+		}
+	}
+}
+
+// redefine: the instruction defines v again (a loop came back to it): everything
+// known about the previous instance of the value is dropped before the transfer.
+func (s *zstate) redefine(v ssa.Value) {
+	delete(s.bools, v)
+	delete(s.guarded, v)
+	delete(s.nonzero, v)
+	delete(s.eq, v)
+	for k, e := range s.eq {
+		if e == v {
+			delete(s.eq, k)
+		}
+	}
+	for k := range s.ns {
+		if k[0] == v || k[1] == v || k[2] == v {
+			delete(s.ns, k)
+		}
+	}
+	s.forget(zterm{v: v})
+	s.forget(zterm{v, true})
 }
 
 func zjoin(a, b *zstate) *zstate {
@@ -415,6 +458,7 @@ type ZObl struct {
 	// for index/slice obligations: the non-negativity part alone (index >= 0, 0 <= low, 0 <= high)
 	IsBound bool
 	LowerOK bool
+	UpperOK bool // the `<= len` clause alone (index < len, high <= len)
 }
 
 type zoneEngine struct {
@@ -442,6 +486,10 @@ type zoneEngine struct {
 	fieldLBCheck map[string]int64
 	// entryNonneg: integer parameters known >= 0 on entry (callbacks of sort.Slice, sort.Interface methods)
 	entryNonneg func(fn *ssa.Function) []*ssa.Parameter
+	// entryFacts: relational facts a - b <= c valid whenever both terms are defined (sort callbacks: i < len(sorted))
+	entryFacts func(fn *ssa.Function) []zEntryFact
+	// inLoop: blocks of the current function that belong to a natural loop (their values are redefined)
+	inLoop map[*ssa.BasicBlock]bool
 }
 
 func (z *zoneEngine) slcanon(v ssa.Value) ssa.Value {
@@ -556,7 +604,67 @@ func isIntType(t types.Type) bool {
 func (z *zoneEngine) leq(s *zstate, x zterm, ox int64, y zterm, oy int64) { s.add(x, y, oy-ox) }
 
 func (z *zoneEngine) provesLeq(s *zstate, x zterm, ox int64, y zterm, oy int64) bool {
-	return s.bottom || s.bound(x, y) <= oy-ox
+	if s.bottom || s.bound(x, y) <= oy-ox {
+		return true
+	}
+	// sum lemma, evaluated with what is known now (the sign of an operand is often learnt
+	// after the sum was computed): for t = A + B, A + lb(B) <= t <= A + ub(B); for t = A - B,
+	// A - ub(B) <= t <= A - lb(B)
+	type part struct {
+		a      zterm
+		oa     int64
+		lb, ub int64 // bounds of the other operand's contribution (may be ±inf)
+	}
+	parts := func(t zterm) []part {
+		if t.v == nil || t.len {
+			return nil
+		}
+		bo, ok := t.v.(*ssa.BinOp)
+		if !ok || (bo.Op != token.ADD && bo.Op != token.SUB) || !isIntType(bo.Type()) {
+			return nil
+		}
+		contrib := func(v ssa.Value, neg bool) (int64, int64) {
+			b, ob := z.lin(s, v)
+			lb, ub := -zInf, zInf
+			if b == zZero {
+				lb, ub = ob, ob
+			} else {
+				if d := s.bound(zZero, b); d < zInf {
+					lb = -d + ob
+				}
+				if d := s.bound(b, zZero); d < zInf {
+					ub = d + ob
+				}
+			}
+			if neg {
+				lb, ub = -ub, -lb
+			}
+			return lb, ub
+		}
+		var out []part
+		a, oa := z.lin(s, bo.X)
+		lb, ub := contrib(bo.Y, bo.Op == token.SUB)
+		out = append(out, part{a, oa, lb, ub})
+		if bo.Op == token.ADD {
+			a2, oa2 := z.lin(s, bo.Y)
+			lb2, ub2 := contrib(bo.X, false)
+			out = append(out, part{a2, oa2, lb2, ub2})
+		}
+		return out
+	}
+	// x + ox <= y + oy with y = a + [lb, ub]: enough that x + ox <= a + oa + lb + oy
+	for _, p := range parts(y) {
+		if p.lb > -zInf/2 && s.bound(x, p.a) <= p.oa+p.lb+oy-ox {
+			return true
+		}
+	}
+	// x = a + [lb, ub]: enough that a + oa + ub + ox <= y + oy
+	for _, p := range parts(x) {
+		if p.ub < zInf/2 && s.bound(p.a, y) <= oy-ox-p.oa-p.ub {
+			return true
+		}
+	}
+	return false
 }
 
 // refine applies a branch condition.
@@ -872,6 +980,23 @@ func (z *zoneEngine) transfer(s *zstate, in ssa.Instruction, record bool) {
 		return
 	}
 	z.curIn = in
+	if v, isVal := in.(ssa.Value); isVal && z.inLoop[in.Block()] {
+		_, isPhi := in.(*ssa.Phi)
+		_, isExtract := in.(*ssa.Extract)
+		if !isPhi && !isExtract {
+			s.redefine(v)
+			// the components of a tuple get their facts from the instruction that produces the tuple
+			if refs := v.Referrers(); refs != nil {
+				if _, isTuple := v.Type().(*types.Tuple); isTuple {
+					for _, r := range *refs {
+						if ex, ok := r.(*ssa.Extract); ok {
+							s.redefine(ex)
+						}
+					}
+				}
+			}
+		}
+	}
 	if z.lineKills[in] {
 		defer func() {
 			// the instruction may change the length of a shared line
@@ -896,6 +1021,7 @@ func (z *zoneEngine) transfer(s *zstate, in ssa.Instruction, record bool) {
 		z.obl(in, what, lower && upper, det)
 		z.obls[len(z.obls)-1].IsBound = true
 		z.obls[len(z.obls)-1].LowerOK = lower
+		z.obls[len(z.obls)-1].UpperOK = upper
 	}
 	switch x := in.(type) {
 	case *ssa.IndexAddr:
@@ -925,6 +1051,7 @@ func (z *zoneEngine) transfer(s *zstate, in ssa.Instruction, record bool) {
 			}
 			z.obl(in, "slice", ok1 && ok2 && ok3, det)
 			z.obls[len(z.obls)-1].IsBound = true
+			z.obls[len(z.obls)-1].UpperOK = ok3
 			// s[lo:hi] with lo given: a negative hi is an ordering failure (hi < lo), not checked here
 			z.obls[len(z.obls)-1].LowerOK = ok1 && (x.Low != nil || x.High == nil || z.provesLeq(s, zZero, 0, hi, ohi))
 		}
@@ -1565,6 +1692,37 @@ func (z *zoneEngine) analyse(fn *ssa.Function) {
 			}
 		}
 	}
+	// value numbering of integer arithmetic: the same operation on the same (immutable) SSA
+	// operands, computed again where the first computation dominates, is the same value
+	{
+		var ariths []*ssa.BinOp
+		eachInstr(fn, func(in ssa.Instruction) {
+			if bo, ok := in.(*ssa.BinOp); ok && isIntType(bo.Type()) {
+				switch bo.Op {
+				case token.ADD, token.SUB, token.MUL:
+					if _, isK := bo.Y.(*ssa.Const); !isK {
+						ariths = append(ariths, bo)
+					}
+				}
+			}
+		})
+		for _, a := range ariths {
+			for _, b := range ariths {
+				if a == b || a.Op != b.Op || a.X != b.X || a.Y != b.Y {
+					continue
+				}
+				if _, done := z.canon[b]; done {
+					continue
+				}
+				if _, isRep := z.canon[a]; isRep {
+					continue
+				}
+				if instrDominates(a, b) {
+					z.canon[b] = a
+				}
+			}
+		}
+	}
 	for k := range z.canon {
 		z.canon[k] = rep(k)
 	}
@@ -1611,12 +1769,21 @@ func (z *zoneEngine) analyse(fn *ssa.Function) {
 			entry.add(zZero, zterm{v: prm}, 0)
 		}
 	}
+	if z.entryFacts != nil {
+		for _, ef := range z.entryFacts(fn) {
+			entry.add(ef.a, ef.b, ef.c)
+		}
+	}
 	in := map[*ssa.BasicBlock]*zstate{fn.Blocks[0]: entry}
 	out := map[*ssa.BasicBlock]*zstate{}
 	visits := map[*ssa.BasicBlock]int{}
 	loopHeads := map[*ssa.BasicBlock]bool{}
+	z.inLoop = map[*ssa.BasicBlock]bool{}
 	for _, l := range findLoops(fn) {
 		loopHeads[l.Head] = true
+		for b := range l.Blocks {
+			z.inLoop[b] = true
+		}
 	}
 	work := []*ssa.BasicBlock{fn.Blocks[0]}
 	inWork := map[*ssa.BasicBlock]bool{fn.Blocks[0]: true}
@@ -1633,6 +1800,9 @@ func (z *zoneEngine) analyse(fn *ssa.Function) {
 		out[b] = s
 		for _, succ := range b.Succs {
 			es := z.edgeState(s, b, succ)
+			if os.Getenv("ZONE_DEBUG") == "2" {
+				fmt.Printf("DBG2 %s step %d edge %d->%d out.bottom=%v es.bottom=%v\n", fnName(fn), steps, b.Index, succ.Index, s.bottom, es.bottom)
+			}
 			var ns *zstate
 			if old, ok := in[succ]; ok {
 				ns = zjoin(old, es)
@@ -1641,6 +1811,18 @@ func (z *zoneEngine) analyse(fn *ssa.Function) {
 					if visits[succ] > 4 {
 						ns = zwiden(old, ns)
 					}
+				}
+				if os.Getenv("ZONE_DEBUG") == "2" {
+					d := func(x *zstate) string {
+						out := ""
+						for t := range x.terms {
+							if t.v != nil && (t.v.Name() == "t3" || t.v.Name() == "t5") {
+								out += fmt.Sprintf(" %s∈[%s,%s]", t, boundStr(-x.bound(zZero, t)), boundStr(x.bound(t, zZero)))
+							}
+						}
+						return out
+					}
+					fmt.Printf("DBG2   join at %d: old{%s} es{%s} ns{%s} equal=%v\n", succ.Index, d(old), d(es), d(ns), zequal(old, ns))
 				}
 				if zequal(old, ns) {
 					continue
@@ -1660,6 +1842,15 @@ func (z *zoneEngine) analyse(fn *ssa.Function) {
 		s, ok := in[b]
 		if !ok {
 			continue // unreachable
+		}
+		if os.Getenv("ZONE_DEBUG") != "" {
+			fmt.Printf("DBG %s block %d (%s) bottom=%v visits=%d head=%v:", fnName(fn), b.Index, b.Comment, s.bottom, visits[b], loopHeads[b])
+			for t := range s.terms {
+				if t.v != nil {
+					fmt.Printf(" %s∈[%s,%s]", t, boundStr(-s.bound(zZero, t)), boundStr(s.bound(t, zZero)))
+				}
+			}
+			fmt.Println()
 		}
 		s = s.clone()
 		for _, ins := range b.Instrs {
